@@ -34,8 +34,13 @@ from explorerscript.ssb_converting.compiler.compile_handlers.abstract import (
 )
 from explorerscript.ssb_converting.compiler.compile_handlers.atoms.integer_like import IntegerLikeCompileHandler
 from explorerscript.ssb_converting.compiler.utils import CompilerCtx
-from explorerscript.ssb_converting.ssb_data_types import SsbRoutineInfo, SsbRoutineType, SsbOpParam
-from explorerscript.util import exps_int
+from explorerscript.ssb_converting.ssb_data_types import (
+    SsbRoutineInfo,
+    SsbRoutineType,
+    SsbOpParam,
+    SsbOpParamConstant,
+)
+from explorerscript.util import exps_int, f, _
 
 
 class ForTargetDefCompileHandler(AbstractFuncdefCompileHandler[ExplorerScriptParser.For_target_defContext]):
@@ -47,13 +52,19 @@ class ForTargetDefCompileHandler(AbstractFuncdefCompileHandler[ExplorerScriptPar
 
     def collect(self) -> Any:
         """Collects routine info and operations."""
-        linked_to = -1
+        linked_to: int | None
         linked_to_name = None
         integer_like = self._linked_to_target
         try:
             linked_to = exps_int(integer_like)  # type: ignore
         except ValueError:
-            linked_to_name = integer_like.name  # type: ignore
+            linked_to = None
+        if linked_to is None:
+            # (Not raised while handling the ValueError, compile() reports the first exception of a chain.)
+            if not isinstance(integer_like, SsbOpParamConstant):
+                raise SsbCompilerError(f(_("Invalid target for a routine: {integer_like}")))
+            linked_to = -1
+            linked_to_name = integer_like.name
 
         target: ExplorerScriptParser.For_target_def_targetContext = self.ctx.for_target_def_target()
         legacy_deprecated_target = target.FOR_TARGET()
